@@ -576,6 +576,126 @@ def reader_tables(prog):
     return tables
 
 
+def rule_vpsc_gap(chk, prog):
+    """The meaning of a stored separation: the VPSC constraint generated from it."""
+    from ..microai.interp import default_obj, MapVal, Oracle
+    r = chk.rule("VPSC-GAP", "SepPair::generateSeparationConstraint(dim, ...) interpreted for every (sep type, gap type, gap sign, dim): "
+                 "NONE gives no constraint; otherwise left/right are (src, tgt) for a non-negative and (tgt, src) for a negative gap, the "
+                 "VPSC gap is |gap| plus, for a boundary gap, the *mean of both nodes' extents in that dimension* plus the extra boundary "
+                 "gap; equality iff EQ; creator recorded -- the x and y dimensions treat a pair the same way (rotation invariance of "
+                 "what a constraint means)", floor=24)
+    GT = enum_vals(prog, "dialect::GapType")
+    ST = enum_vals(prog, "dialect::SepType")
+    fn = prog.fn("dialect::SepPair::generateSeparationConstraint")
+    E = Poly.var("E")
+    dims = {0: ("w0", "w1"), 1: ("h0", "h1")}
+    for dim in (0, 1):
+        for stn, st in ST.items():
+            for gtn, gt in GT.items():
+                for sgn in (1, -1):
+                    gap = Fraction(7 * sgn)
+                    kw = dict(xgt=GT["CENTRE"], ygt=GT["CENTRE"], xst=ST["NONE"], yst=ST["NONE"], xgap=Fraction(0), ygap=Fraction(0))
+                    if dim == 0:
+                        kw.update(xgt=gt, xst=st, xgap=gap)
+                    else:
+                        kw.update(ygt=gt, yst=st, ygap=gap)
+                    pair = sym_pair(kw["xgt"], kw["ygt"], kw["xst"], kw["yst"], kw["xgap"], kw["ygap"])
+                    rects = [Obj("vpsc::Rectangle", {"tag": i}) for i in (0, 1)]
+
+                    def ext(which):
+                        def h(it, n, env):
+                            from ..astq import call_object
+                            o = it.ev(call_object(n), env)
+                            return Poly.var("%s%d" % (which, o.f["tag"]))
+                        return h
+                    hooks = {"vpsc::Rectangle::width": ext("w"), "vpsc::Rectangle::height": ext("h"),
+                             "dialect::SepMatrix::getExtraBdryGap": lambda it, n, env: E}
+                    cgr = default_obj(prog, "dialect::ColaGraphRep", {"rs": Vec(rects, "vpsc::Rectangle *"), "id2ix": MapVal({0: 0, 1: 1}),
+                                                                       "ix2id": MapVal({0: 0, 1: 1})})
+                    m = default_obj(prog, "dialect::SepMatrix", {})
+                    vs = Vec([Obj("vpsc::Variable", {"id": 0}), Obj("vpsc::Variable", {"id": 1})], "vpsc::Variable *")
+                    it = Interp(prog, Oracle([]), hooks=hooks)
+                    try:
+                        c = it.call(fn, pair, None, None, arg_values=[dim, Box(cgr), m, Box(vs)])
+                    except (Unsupported, AssertFail, Thrown) as e:
+                        raise AnalysisBroken("generateSeparationConstraint outside the interpreter subset: %s" % e)
+                    r.count()
+                    inst = "dim %s, %s %s gap %s" % ("xy"[dim], stn, gtn, "+" if sgn > 0 else "-")
+                    bad = None
+                    if stn == "NONE":
+                        if c is not None:
+                            bad = "a constraint is generated although there is no separation in this dimension"
+                    elif c is None:
+                        bad = "no constraint generated"
+                    else:
+                        want_lr = (0, 1) if sgn > 0 else (1, 0)
+                        got_lr = (c.f["left"].f["id"], c.f["right"].f["id"])
+                        a, b = dims[dim]
+                        want_gap = to_poly(Fraction(7))
+                        if gtn == "BDRY":
+                            want_gap = want_gap + (to_poly(Poly.var(a)) + to_poly(Poly.var(b))) * Fraction(1, 2) + to_poly(E)
+                        if got_lr != want_lr:
+                            bad = "constraint between variables %s, expected %s" % (got_lr, want_lr)
+                        elif to_poly(c.f["gap"]) != want_gap:
+                            bad = "VPSC gap %s, expected %s" % (to_poly(c.f["gap"]), want_gap)
+                        elif bool(c.f.get("equality")) != (stn == "EQ"):
+                            bad = "equality flag %s for a %s separation" % (c.f.get("equality"), stn)
+                        elif c.f.get("creator") is not m:
+                            bad = "creator not recorded"
+                    (r.bad if bad else r.ok)(inst, fn.where(), bad or "")
+
+
+def rule_tglf_node_ids(chk, prog):
+    from ..microai.interp import default_obj, MapVal, Oracle, StreamVal
+    import itertools
+    r = chk.rule("TGLF-NODE-IDS", "Graph::writeTglf(useExternalIds=true) interpreted on every 3-node graph with internal ids a<b<c in [0,7) and "
+                 "external ids drawn from {unset, 0..7}: the ids written on the node lines are pairwise distinct, a node with an external id "
+                 "keeps it, and the id map handed to the constraint writer is the same mapping (otherwise edges and constraints of the "
+                 "re-read graph attach to the wrong node)", floor=1)
+    fn = prog.fn("dialect::Graph::writeTglf")
+    n_cfg = 0
+    bad = None
+
+    def node(i, ext):
+        return default_obj(prog, "dialect::Node", {"m_ID": i, "m_externalID": ext, "m_cx": Fraction(0), "m_cy": Fraction(0),
+                                                   "m_w": Fraction(1), "m_h": Fraction(1)})
+    seen_map = []
+    hooks = {"dialect::SepMatrix::writeTglf": lambda it, n, env: (seen_map.append(dict(it.ev(n["ch"][1], env).d)), "")[1]}
+    for ids in itertools.combinations(range(0, 7), 3):
+        for exts in itertools.product((-1, 0, 3, 5, 6, 7), repeat=3):
+            used = [e for e in exts if e >= 0]
+            if len(set(used)) != len(used):
+                continue
+            nodes = MapVal({i: node(i, e) for i, e in zip(ids, exts)}, vtype="std::shared_ptr<dialect::Node>")
+            g = default_obj(prog, "dialect::Graph", {"m_nodes": nodes, "m_edges": MapVal()})
+            del seen_map[:]
+            it = Interp(prog, Oracle([]), hooks=hooks)
+            try:
+                out = it.call(fn, g, None, None, arg_values=[True])
+            except (Unsupported, AssertFail, Thrown) as e:
+                raise AnalysisBroken("Graph::writeTglf outside the interpreter subset: %s" % e)
+            n_cfg += 1
+            toks = out.tokens if isinstance(out, StreamVal) else []
+            lines, cur = [], []
+            for t in toks:
+                if t == "\n":
+                    lines.append(cur)
+                    cur = []
+                else:
+                    cur.append(t)
+            written = [ln[0] for ln in lines if ln and ln[0] != "#"][:3]
+            if len(written) != 3 or len(set(written)) != 3:
+                bad = bad or "internal ids %s with external ids %s are written as node ids %s: not distinct" % (list(ids), list(exts), written)
+                continue
+            for (i, e), w in zip(zip(ids, exts), written):
+                if e >= 0 and w != e:
+                    bad = bad or "node %d with external id %d is written as %s" % (i, e, w)
+            if seen_map and [seen_map[0].get(i) for i in ids] != written:
+                bad = bad or "constraint writer receives the id map %s but the node lines carry %s" % (seen_map[0], written)
+    r.count(n_cfg)
+    (r.bad if bad else r.ok)("Graph::writeTglf(true)", fn.where(), bad or "%d configurations" % n_cfg)
+
+
 def rule_tglf(chk, prog):
     r = chk.rule("TGLF-ROUNDTRIP", "SepPair::writeTglf interpreted over the abstract domain (gap types 2x2, sep types 3x3, gap sign classes "
                  "{+,-,0}^2, symbolic magnitudes and extra boundary gap) yields lines `src tgt <B|C> <dir> <rel> <gap>`; every emitted letter "
@@ -709,6 +829,8 @@ def run(chk):
     prog = chk.load()
     PROG[0] = prog
     rule_tglf(chk, prog)
+    rule_vpsc_gap(chk, prog)
+    rule_tglf_node_ids(chk, prog)
     extracted, TF, GT, ST = rule_transform(chk, prog)
     rule_group(chk, prog, extracted)
     rule_dir_commute(chk, prog, extracted, TF, GT, ST)
